@@ -78,6 +78,21 @@ def run_history(case):
                     os.unlink(os.path.join(world, op[1]))
                 except FileNotFoundError:
                     pass
+            elif op[0] == "render_w":
+                name = J.subst(op[1], world)
+                ctx = J.dec_ctx(op[2])
+                target = os.path.join(world, op[3])
+                # the fresh engine first (the file is still the old one), then the long-lived engine with the hook
+                fresh = Engine(dict(config))
+                out_fresh.append(_observe(lambda: fresh.render(name, dict(ctx))))
+
+                def rewrite():
+                    with _REAL_OPEN(target, "w", encoding="utf-8") as f:
+                        f.write(J.jinja_source(op[4], world))
+                    t = J.STAMP_BASE + op[5]
+                    os.utime(target, ns=(t * 10 ** 9, t * 10 ** 9))
+                out_engine.append(_observe(lambda: _with_write_after_read(target, rewrite,
+                                                                         lambda: engine.render(name, dict(ctx)))))
             elif op[0] == "render":
                 name = J.subst(op[1], world)
                 ctx = J.dec_ctx(op[2])
@@ -90,6 +105,64 @@ def run_history(case):
     finally:
         os.chdir(_STATE.get("cwd0", "/"))
         shutil.rmtree(world, ignore_errors=True)
+
+
+import builtins  # noqa: E402
+_REAL_OPEN = builtins.open
+
+
+class _ReadHook:
+    """file object proxy: the first read() that returns runs `action` once"""
+
+    def __init__(self, f, fire):
+        self._f, self._fire = f, fire
+
+    def read(self, *a):
+        data = self._f.read(*a)
+        self._fire()
+        return data
+
+    def __enter__(self):
+        self._f.__enter__()
+        return self
+
+    def __exit__(self, *a):
+        return self._f.__exit__(*a)
+
+    def __iter__(self):
+        return iter(self._f)
+
+    def __getattr__(self, name):
+        return getattr(self._f, name)
+
+
+def _with_write_after_read(target, action, body):
+    """run body(); the first time `target` is opened for reading and read, `action` runs right after the read
+    returns (the file changes between the reader's read and whatever it does next); if the file is never read
+    the action runs after body()"""
+    state = {"done": False}
+
+    def fire():
+        if not state["done"]:
+            state["done"] = True
+            action()
+
+    def hooked(file, mode="r", *a, **kw):
+        f = _REAL_OPEN(file, mode, *a, **kw)
+        try:
+            same = isinstance(file, (str, bytes, os.PathLike)) and os.path.abspath(os.fspath(file)) == target
+        except Exception:  # noqa
+            same = False
+        if same and not state["done"] and "r" in mode and "+" not in mode:
+            return _ReadHook(f, fire)
+        return f
+
+    builtins.open = hooked
+    try:
+        return body()
+    finally:
+        builtins.open = _REAL_OPEN
+        fire()
 
 
 def run_access(case):
